@@ -9,6 +9,12 @@ Driver handler for C18 (rigid transforms and the transform registry).
   composites `C₂ = M₁∘M₀`, `C₃ = M₂∘C₂` … (`via[i]` = `"dot"`: `Mᵢ.dot(C)`, otherwise `C.transform(Mᵢ)`),
   stopping at the first error.
 * `{"op":"registry","mats":[M…],"queries":[{"src":A,"dst":A,"arg":X}…]}` — `TransformDict(mats).transform`.
+* `{"op":"regseq","mats":[M…],"ops":[O…],"probes":[{"src":A,"dst":A}…],"parg":X}` — an operation sequence on
+  one registry: `O = {"op":"set","mat":M}` (`reg[(M.src, M.dst)] = M`) `| {"op":"del","src":A,"dst":A}`
+  `| {"op":"copy"}` (continue on `deepcopy(reg)`, the original is kept) `| {"op":"query","src","dst","arg":X}`.
+  Answer: `steps[0]` after construction, `steps[i]` after the i-th operation, each
+  `{"res": null | {"err":k} | answer, "probes":[answer of the current contents to every probe key with `parg`]}`,
+  and `olds` = `[{"probes":[…]}…]`, the probe answers of every registry left behind by a `copy`, asked at the end.
 
 `M = {"pos":[3],"q":[4],"src":A,"dst":A}`, `A = {"member":name} | {"str":s}`,
 `X = {"kind":"pos","pos"} | {"kind":"pose","pos","q"} | {"kind":"mat", …M} | {"kind":"noargs"|"toomany"|"unknownkw"|"posandmat"}`.
@@ -108,6 +114,45 @@ def getTArg (j : Json) : Except String (Except String TArg) := do
   | "posandmat" => pure (.ok .posAndMat)
   | k => throw s!"unknown arg kind {k}"
 
+/-- the answers of the contents `d` to every probe key with the shared argument -/
+def probeAll (d : List HM) (probes : List (Arg × Arg)) (x : TArg) : Json :=
+  Json.arr (probes.map (fun st => jRes (dictTransform d st.1 st.2 x))).toArray
+
+structure SeqState where
+  cur : List HM
+  olds : List (List HM)
+  steps : Array Json
+
+def jErr (e : String) : Json := Json.mkObj [("err", e)]
+
+/-- one operation on the registry, then the probe set on the new contents -/
+def seqStep (probes : List (Arg × Arg)) (x : TArg) (st : SeqState) (oj : Json) : Except String SeqState := do
+  let op ← getStr oj "op"
+  let (res, cur, olds) ← (match op with
+    | "set" => do
+      match ← getHM (← oj.getObjVal? "mat") with
+      | .error e => pure (jErr e, st.cur, st.olds)
+      | .ok m => pure (Json.null, dictSet st.cur m, st.olds)
+    | "del" => do
+      let s ← getArg oj "src"
+      let t ← getArg oj "dst"
+      match transformKey s t with
+      | .error e => pure (jErr e, st.cur, st.olds)
+      | .ok k =>
+        match dictDel st.cur k with
+        | .error e => pure (jErr e, st.cur, st.olds)
+        | .ok d => pure (Json.null, d, st.olds)
+    | "copy" => pure (Json.null, st.cur, st.olds ++ [st.cur])
+    | "query" => do
+      let s ← getArg oj "src"
+      let t ← getArg oj "dst"
+      match ← getTArg (← oj.getObjVal? "arg") with
+      | .error e => pure (Json.mkObj [("arg_err", e)], st.cur, st.olds)
+      | .ok a => pure (jRes (dictTransform st.cur s t a), st.cur, st.olds)
+    | o => throw s!"unknown registry operation {o}" : Except String (Json × List HM × List (List HM)))
+  pure { cur := cur, olds := olds,
+         steps := st.steps.push (Json.mkObj [("res", res), ("probes", probeAll cur probes x)]) }
+
 def handle : Json → Except String Json := fun j => do
   let op ← getStr j "op"
   let specs ← getArr j "mats"
@@ -135,6 +180,20 @@ def handle : Json → Except String Json := fun j => do
         | .error e => pure (Json.mkObj [("arg_err", e)])
         | .ok x => pure (jRes (dictTransform mats s d x)))
       pure (Json.mkObj [("answers", Json.arr answers.toArray)])
+    | "regseq" => do
+      let ops ← getArr j "ops"
+      let pj ← getArr j "probes"
+      let probes ← pj.toList.mapM (fun q => do
+        let s ← getArg q "src"
+        let t ← getArg q "dst"
+        pure (s, t))
+      match ← getTArg (← j.getObjVal? "parg") with
+      | .error e => throw s!"probe argument rejected: {e}"
+      | .ok x =>
+        let st0 : SeqState := ⟨mats, [], #[Json.mkObj [("res", Json.null), ("probes", probeAll mats probes x)]]⟩
+        let st ← ops.toList.foldlM (seqStep probes x) st0
+        pure (Json.mkObj [("steps", Json.arr st.steps),
+          ("olds", Json.arr (st.olds.map (fun d => Json.mkObj [("probes", probeAll d probes x)])).toArray)])
     | o => throw s!"unknown op {o}"
 
 end PEval.Driver.C18
